@@ -153,12 +153,29 @@ def columns(P, F, stmts, sym, header):
     return total, seq
 
 
+def local_helpers_called(P, F, pred=None):
+    """functions of F's own source file that F calls (file-local helpers), optionally filtered by pred(G)"""
+    out = []
+    for x in F.walk():
+        if x.get("k") == "CallExpr" and x.get("callee"):
+            G = P.funcs.get(x["callee"])
+            if G is not None and G is not F and G.body is not None and G.file == F.file and (pred is None or pred(G)):
+                if G not in out:
+                    out.append(G)
+    return out
+
+
 def gwb_dat(P, rep, widths, rule="LAYOUT.L4.dat"):
     rep.rule(rule, "gwb-dat: for dim 2 and 3 the header has as many column names as a row has values (as polynomials in "
                    "compositions, grain compositions, grains); every printed output[idx] is at the offset its column has in the "
                    "tool's own request list under the library's width table; the row query receives the row's own coordinates "
                    "and depth")
     F = main_of(P, "gwb-dat")
+    printers = local_helpers_called(P, F, lambda G: any(y.get("k") == "DeclRefExpr" and P.d(y["r"]).get("qn") == "std::cout" for y in G.walk()))
+    if printers:
+        # the table is (partly) printed by helper functions: this rule reads the stream statements of main() only
+        rep.unknown(rule, "gwb-dat prints part of its table in %s: the column/offset comparison is written over main() alone" % ", ".join(g.qn for g in printers))
+        return
     props = var_by_name(F, "properties")
     names = {}
     for nm in ("compositions", "grain_compositions", "n_grains", "dim"):
@@ -853,6 +870,10 @@ def filter_copy(P, rep, rule="FILTER"):
         in_data, out_data = F.params[names.index("input_data")], F.params[names.index("output_data")]
     except ValueError:
         rep.unknown(rule, "filter_vtu_mesh parameter names")
+        return
+    helpers = local_helpers_called(P, F)
+    if helpers:
+        rep.unknown(rule, "filter_vtu_mesh delegates to %s: this rule is written over the body of filter_vtu_mesh alone" % ", ".join(g.qn for g in helpers))
         return
     have = {n.get("n") for n in F.walk() if n.get("k") == "VarDecl"}
     missing = {"src_vid", "dst_vid", "highest_tag", "vertex_index_map", "tag_index", "invalid"} - have
